@@ -61,15 +61,14 @@ def load_csv(
     if id_col is not None and not df.iloc[:, id_col].is_unique:
         raise DataError(f"Duplicate value(s) in column at index {id_col}")
 
+    # select the rank columns by name on the full frame, so that id_col and weight_col keep
+    # referring to the columns of the file
     if rank_cols:
+        ranks = [df.columns[i] for i in rank_cols]
+    else:
+        ranks = list(df.columns)
         if id_col is not None:
-            df = df.iloc[:, rank_cols + [id_col]]
-        else:
-            df = df.iloc[:, rank_cols]
-
-    ranks = list(df.columns)
-    if id_col is not None:
-        ranks.remove(df.columns[id_col])
+            ranks.remove(df.columns[id_col])
     grouped = df.groupby(ranks, dropna=False)
     ballots = []
 
